@@ -195,6 +195,9 @@ func (s *streamScope) ReserveMemory(size int, prio uint8) error {
 type gater struct {
 	hook  string // "", "InterceptAccept", "InterceptSecured", "InterceptPeerDial", "InterceptAddrDial", "InterceptUpgraded"
 	fired atomic.Bool
+	// upgradedDelay makes InterceptUpgraded take (virtual) time: it widens the window between a
+	// connection being accepted / dialled and its registration in the swarm
+	upgradedDelay time.Duration
 }
 
 func (g *gater) rej(h string) bool {
@@ -211,6 +214,9 @@ func (g *gater) InterceptSecured(network.Direction, peer.ID, network.ConnMultiad
 	return g.rej("InterceptSecured")
 }
 func (g *gater) InterceptUpgraded(network.Conn) (bool, control.DisconnectReason) {
+	if g.upgradedDelay > 0 {
+		time.Sleep(g.upgradedDelay)
+	}
 	return g.rej("InterceptUpgraded"), 0
 }
 
